@@ -261,7 +261,19 @@ func ruleKeyWidth(c *Ctx, p *core.Program) {
 			c.R.Unk(rule, "ColLowCardinality."+mn, cfg, "", "method missing")
 			continue
 		}
-		tbl := switchTable(fn, func(v ssa.Value) bool { return core.IsNamed(v.Type(), core.PkgProto, "CardinalityKey") })
+		isKey := func(v ssa.Value) bool { return core.IsNamed(v.Type(), core.PkgProto, "CardinalityKey") }
+		tbl := switchTable(fn, isKey)
+		if len(tbl) < 4 {
+			// the switch may have been moved into a method of the same type called from here
+			for _, g := range core.StaticReachList(fn) {
+				if g == nil || g == fn || g.Blocks == nil || core.RecvNamed2(g) == nil || core.RecvNamed2(g).Obj().Name() != "ColLowCardinality" {
+					continue
+				}
+				if t := switchTable(g, isKey); len(t) >= 4 && len(t) > len(tbl) {
+					tbl, fn = t, g
+				}
+			}
+		}
 		// closures (WriteColumn) do not contain the switch; fine
 		if len(tbl) < 4 {
 			c.R.Unk(rule, "ColLowCardinality."+mn+"/switch", cfg, p.Pos(fn.Pos()), sprintf("switch on the key has %d cases, expected 4", len(tbl)))
